@@ -71,6 +71,22 @@ def containers(cols, extra=None):
             yield f"np.{name}", [np.array(c, dtype=dt) for c in cols] + [np.array(e) for e in ex], lambda r: np.asarray(r).tolist()
             yield f"npscalar.{name}", None, dt
             yield f"ak.flat.{name}", [ak.Array(np.array(c, dtype=dt)) for c in cols] + [ak.Array(np.array(e)) for e in ex], lambda r: ak.to_list(r)
+    # NumPy arrays that are not plain native contiguous buffers (after the native loops above exist: numba compiles per first-seen type)
+    for bdt in (">u2", ">i4", ">u8", ">i8"):
+        info = np.iinfo(np.dtype(bdt))
+        if lo >= info.min and hi <= info.max:
+            yield f"np.bigendian.{bdt[1:]}", [np.array(c, dtype=bdt) for c in cols] + [np.array(e) for e in ex], lambda r: np.asarray(r).tolist()
+    def strided(c, dt=np.int64):
+        b = np.zeros(2 * len(c), dtype=dt); b[::2] = c; return b[::2]
+    yield "np.strided", [strided(c) for c in cols] + [strided(e, np.float64) for e in ex], lambda r: np.asarray(r).tolist()
+    yield "np.reversed-view", [np.array(c[::-1], dtype=np.int64)[::-1] for c in cols] + [np.array(e[::-1])[::-1] for e in ex], lambda r: np.asarray(r).tolist()
+    def ro(a): a.setflags(write=False); return a
+    yield "np.readonly", [ro(np.array(c, dtype=np.int64)) for c in cols] + [ro(np.array(e)) for e in ex], lambda r: np.asarray(r).tolist()
+    yield "np.2d", [np.array(c[: n // 2 * 2], dtype=np.int64).reshape(-1, 2) for c in cols] + [np.array(e[: n // 2 * 2]).reshape(-1, 2) for e in ex], ("trunc-np", n // 2 * 2)
+    flagcols = [k for k, c in enumerate(cols) if set(c) <= {0, 1} and len(cols) > 1]
+    if flagcols:   # a 0 / 1 flag given as booleans
+        yield "np.bool-flags", [np.array(c, dtype=np.bool_ if k in flagcols else np.int64) for k, c in enumerate(cols)], lambda r: np.asarray(r).tolist()
+        yield "ak.bool-flags", [ak.Array(np.array(c, dtype=np.bool_ if k in flagcols else np.int64)) for k, c in enumerate(cols)], lambda r: ak.to_list(r)
     cuts = sorted(rng.sample(range(n + 1), 3)); counts = [int(x) for x in np.diff([0] + cuts + [n])]
     def rag(c, dt=np.int64): return ak.unflatten(ak.Array(np.array(c, dtype=dt)), counts)
     fl = lambda r: ak.to_list(ak.flatten(r, axis=None))
@@ -90,6 +106,7 @@ def run_fn(name, fn, cols, extra=None):
     ref = [canon(fn(*[int(c[i]) for c in cols], *[float(e[i]) for e in ex])) for i in range(n)]; n_eval += n
     for kind, args, un in containers(cols, ex):
         matrix[f"{name}|{kind}"] = "ok"
+        sys.stderr.write(f"BEGIN {name}|{kind}\n"); sys.stderr.flush()       # numba kernels do not bounds-check: a wrong index can kill the interpreter
         try:
             if kind.startswith("npscalar."):
                 dt = un
@@ -98,6 +115,9 @@ def run_fn(name, fn, cols, extra=None):
                 r = fn(*args)
                 if callable(un): got = canon(un(r)); want = ref
                 elif un[0] == "trunc": got = canon(ak.to_list(ak.flatten(r, axis=None))); want = ref[:un[1]]
+                elif un[0] == "trunc-np":
+                    got = canon(np.asarray(r).ravel().tolist()); want = ref[:un[1]]
+                    if np.asarray(r).shape != (un[1] // 2, 2): report(f"C14:structure:{name}:{kind}", f"2-D input gives shape {np.asarray(r).shape}", {"function": name, "kind": kind})
                 elif un[0] == "perm":
                     counts = un[1]; st = np.cumsum([0] + counts); order = [i for k in (3, 2, 1, 0) for i in range(st[k], st[k + 1])]
                     got = canon(ak.to_list(ak.flatten(r, axis=None))); want = [ref[i] for i in order]
@@ -121,8 +141,69 @@ def run_fn(name, fn, cols, extra=None):
             report(f"C14:raises:{name}:{kind}:{type(e).__name__}", f"{name} with {kind} input raised {type(e).__name__}: {str(e)[:160]}", {"function": name, "kind": kind})
     return ref
 
+def history_fn(name, fn, cols, extra=None):
+    """one set of input buffers re-filled in place between two calls (a preallocated read buffer), results kept across calls:
+    the second answer belongs to the second content, the first answer is not changed by the second call"""
+    global n_eval
+    n = len(cols[0]); ex = extra or []
+    perm = list(range(n)); rng.shuffle(perm)
+    colsB = [[c[i] for i in perm] for c in cols]; exB = [[e[i] for i in perm] for e in ex]
+    try:
+        bufs = [np.array(c, dtype=np.int64) for c in cols] + [np.array(e, dtype=np.float64) for e in ex]
+        r1 = fn(*bufs); keep1 = canon(np.asarray(r1).tolist())
+        for b, c in zip(bufs, colsB + exB): b[:] = c
+        r2 = fn(*bufs); n_eval += 2 * n
+        want2 = canon(np.asarray(fn(*[np.array(c, dtype=np.int64) for c in colsB], *[np.array(e, dtype=np.float64) for e in exB])).tolist())
+        if canon(np.asarray(r2).tolist()) != want2:
+            report(f"C14:history:refilled-buffer:{name}", f"{name}: the same input arrays re-filled in place and passed again give the answer of their PREVIOUS content", {"function": name})
+        if canon(np.asarray(r1).tolist()) != keep1:
+            report(f"C14:history:earlier-result-changed:{name}", f"{name}: the result of the first call changed when the function was called again", {"function": name})
+        matrix[f"{name}|history"] = "ok"
+    except Exception as e:
+        report(f"C14:raises:{name}:history:{type(e).__name__}", f"{name} refilled-buffer history raised {type(e).__name__}: {str(e)[:160]}", {"function": name})
+
+FRESH = r"""
+import json, sys, numpy as np
+import pybes3.detectors as det
+name, first = sys.argv[1], sys.argv[2]
+cols = json.loads(sys.argv[3]); flags = json.loads(sys.argv[4])
+fn = getattr(det, name)
+def args(kind):
+    return [np.array(c, dtype=(np.bool_ if (kind == 'bool' and k in flags) else np.int64)) for k, c in enumerate(cols)]
+out = {}
+for kind in ([first] + [k for k in ('bool', 'int') if k != first]):      # numba compiles a loop for the first types it sees; later calls may reuse it
+    out[kind] = [int(x) for x in np.asarray(fn(*args(kind))).tolist()]
+out['pyint'] = [int(fn(*[int(c[i]) for c in cols])) for i in range(min(4, len(cols[0])))]
+print(json.dumps(out))
+"""
+def fresh_first_call():
+    """a 0 / 1 flag given as booleans or as integers, each as the FIRST call of a fresh interpreter: the same identifiers"""
+    global n_eval
+    import subprocess, os
+    jobs = []
+    for name, (fn, cols) in SPEC.items():
+        flags = [k for k, c in enumerate(cols) if set(c) <= {0, 1} and len(cols) > 1]
+        if flags and name.startswith("get_") and name.endswith("_digi_id"):
+            for first in ("bool", "int"):
+                jobs.append((name, first, subprocess.Popen([sys.executable, "-c", FRESH, name, first, json.dumps(cols), json.dumps(flags)], stdout=subprocess.PIPE, stderr=subprocess.PIPE, text=True, env=dict(os.environ))))
+    res = {}
+    for name, first, pr in jobs:
+        so, se = pr.communicate(timeout=600)
+        try: res[(name, first)] = json.loads(so.strip().splitlines()[-1])
+        except Exception: report(f"C14:raises:{name}:fresh-process:{first}-first", f"{name} in a fresh interpreter ({first} flags first) failed: {se[-200:]}", {"function": name}); continue
+    for (name, first), out in res.items():
+        n_eval += 3 * len(out["bool"]); matrix[f"{name}|fresh:{first}-first"] = "ok"
+        vals_ = {k: out[k] for k in ("bool", "int")}
+        if vals_["bool"] != vals_["int"] or out["pyint"] != vals_["int"][:len(out["pyint"])] or any(res.get((name, o), out)["bool"] != vals_["bool"] for o in ("bool", "int")):
+            matrix[f"{name}|fresh:{first}-first"] = "differs"
+            j = next((i for i, (a, b) in enumerate(zip(vals_["bool"], vals_["int"])) if a != b), 0)
+            report(f"C14:value:{name}:flag-representation:fresh-process", f"{name} in a fresh interpreter ({first} flags first): boolean flags give {hex(vals_['bool'][j])}, the same truth values as integers {hex(vals_['int'][j])}, "
+                   f"Python ints {[hex(x) for x in out['pyint'][:2]]}", {"function": name, "first_call": first, "args": [int(c[j]) for c in SPEC[name][1]]})
+fresh_first_call()
+
 sample = []
 for name, (fn, cols) in SPEC.items():
+    history_fn(name, fn, cols)
     ref = run_fn(name, fn, cols)
     if all(isinstance(x, int) for x in ref):
         for i in range(3): sample.append({"f": name.split(".")[-1], "args": [int(c[i]) for c in cols], "value": ref[i]})
@@ -171,6 +252,8 @@ for pname, (pf, vals, fmap, optkind) in PARSERS.items():
                         continue
                 r = pf(x, **o); n_eval += 1
                 flds = fields_of(r)
+                if isinstance(r, ak.Array) and isinstance(xin, ak.Array) and r.ndim != xin.ndim:
+                    report(f"C14:structure:{pname}:{kind}", f"{pname}: records sit at depth {r.ndim}, the input has depth {xin.ndim} ({kind}, {o}): type {str(r.type)[:120]}", {"parser": pname, "kind": kind, "options": o})
                 for k, f in fmap.items():
                     if k not in flds:
                         if k in ("west_x", "west_y", "west_z", "east_x", "east_y", "east_z", "front_center_x", "front_center_y", "front_center_z", "center_x", "center_y", "center_z") and not o.get("with_pos", pname.endswith("_gid")):
@@ -183,6 +266,35 @@ for pname, (pf, vals, fmap, optkind) in PARSERS.items():
             except Exception as e:
                 matrix[tag] = f"raises {type(e).__name__}"
                 report(f"C14:raises:{pname}:{kind}:{json.dumps(o, sort_keys=True)}:{type(e).__name__}", f"{pname}({kind}, {o}) raised {type(e).__name__}: {str(e)[:160]}", {"parser": pname, "kind": kind, "options": o})
+    # results of successive calls are independent objects: parsing B does not change what was returned for A (both libraries where offered)
+    for lib in (("np", "ak") if optkind == "flatlib" else ("ak",)):
+        try:
+            kwl = {"library": lib} if optkind == "flatlib" else {}
+            A = np.array(vals, dtype=np.int64); B = np.array(vals[::-1], dtype=np.int64)
+            buf = A.copy(); ra = pf(buf if lib == "np" else ak.Array(buf), **kwl); keep = {k: col(ra, k) for k in fmap if k in fields_of(ra)}
+            buf[:] = B; rb = pf(buf if lib == "np" else ak.Array(buf), **kwl); n_eval += 2
+            wantb = pf(B.copy() if lib == "np" else ak.Array(B.copy()), **kwl)
+            for k in keep:
+                if col(rb, k) != col(wantb, k):
+                    report(f"C14:history:refilled-buffer:{pname}:{lib}", f"{pname}: an input array re-filled in place and parsed again gives the records of its PREVIOUS content (field {k})", {"parser": pname, "library": lib}); break
+            r_first = pf(A.copy() if lib == "np" else ak.Array(A.copy()), **kwl); keep1 = {k: col(r_first, k) for k in fmap if k in fields_of(r_first)}
+            pf(B.copy() if lib == "np" else ak.Array(B.copy()), **kwl)
+            if any(col(r_first, k) != keep1[k] for k in keep1):
+                report(f"C14:history:earlier-result-changed:{pname}:{lib}", f"{pname}(library={lib}): the result returned for one collection changed when another collection was parsed", {"parser": pname, "library": lib})
+            if lib == "np" and isinstance(r_first, dict):
+                ids_ = [id(v) for v in r_first.values()]
+                n_eval += 1
+        except Exception as e:
+            report(f"C14:raises:{pname}:history:{lib}:{type(e).__name__}", f"{pname} history ({lib}) raised {type(e).__name__}: {str(e)[:160]}", {"parser": pname})
+    # the SAME NumPy array object passed again after it was re-filled in place (no library option: every parser takes NumPy input)
+    try:
+        A = np.array(vals, dtype=np.int64); B = np.array(vals[::-1], dtype=np.int64)
+        buf = A.copy(); ra = pf(buf); buf[:] = B; rb = pf(buf); wantb = pf(B.copy()); n_eval += 3
+        for k in fmap:
+            if k in fields_of(rb) and col(rb, k) != col(wantb, k):
+                report(f"C14:history:refilled-buffer:{pname}:same-object", f"{pname}: the same NumPy array re-filled in place and parsed again gives the records of its PREVIOUS content (field {k})", {"parser": pname}); break
+    except Exception as e:
+        report(f"C14:raises:{pname}:history:same-object:{type(e).__name__}", f"{pname} history (same object) raised {type(e).__name__}: {str(e)[:160]}", {"parser": pname})
     if optkind == "flatlib":   # NumPy and Awkward outputs hold the same values
         a = pf(arr_np, library="np"); b = pf(arr_ak, library="ak"); n_eval += 1
         for k in fmap:
